@@ -5,12 +5,12 @@ open WR WR.Sexp WR.C16
 
 namespace Driver.C16
 
-/-- (b id positioned z floated opacity transform overflow blockLevel inlineBlock hasLines text (children…)),
+/-- (b id positioned z floated opacity transform overflow blockLevel inlineBlock hasLines text tableCell table (children…)),
     z = auto | integer.  The tree arrives as an s-expression of bounded depth; `fuel` bounds the recursion
     of the decoder only. -/
 def getBox : Nat → Sexp → Option Box
   | 0, _ => none
-  | fuel + 1, .list [.atom "b", id, p, z, f, op, tr, ov, bl, ib, hl, tx, .list ch] => do
+  | fuel + 1, .list [.atom "b", id, p, z, f, op, tr, ov, bl, ib, hl, tx, tc, tb, .list ch] => do
     let z' ← match z with
       | .atom "auto" => some none
       | z => (z.asInt?).map some
@@ -24,7 +24,9 @@ def getBox : Nat → Sexp → Option Box
     let ib' ← ib.asBool?
     let hl' ← hl.asBool?
     let tx' ← tx.asBool?
-    some (.mk (← id.asNat?) ⟨p', z', f', op', tr', ov', bl', ib', hl', tx'⟩ ch')
+    let tc' ← tc.asBool?
+    let tb' ← tb.asBool?
+    some (.mk (← id.asNat?) ⟨p', z', f', op', tr', ov', bl', ib', hl', tx', tc', tb'⟩ ch')
   | _, _ => none
 
 def layerName : Layer → String
